@@ -33,14 +33,20 @@ ASSUMPTIONS = ["no verifier in the simulated kernel", "acyclic start-up datagram
 WRITE_CMDS = (2, 3, 5, 6, 8, 9, 11, 12, 13, 14)
 
 
-def make_fast_device(ins, outs):
-    """device class copying each linked input into a DeviceVar and each
-    writable DeviceVar into its linked output, in the generated program"""
+WIDER = {"b": "bhiq", "h": "hiq", "i": "iq", "q": "q", "B": "BHIQ", "H": "HIQ", "I": "IQ", "Q": "Q"}
+
+
+def make_fast_device(ins, outs, in_fmts=None, consts=None):
+    """device class copying each linked input into a DeviceVar (possibly a wider
+    one of the same signedness) and each writable DeviceVar - or a constant
+    fixed at generation time - into its linked output, in the generated program"""
     from ebpfcat.ebpfcat import Device, DeviceVar, TerminalVar
+    in_fmts = in_fmts or ["I" if isinstance(ln["size"], int) else ln["size"] for ln in ins]
+    consts = consts or [None] * len(outs)
     ns = {}
     for i, ln in enumerate(ins):
         ns[f"i{i}"] = TerminalVar()
-        ns[f"vi{i}"] = DeviceVar("I" if isinstance(ln["size"], int) else ln["size"])
+        ns[f"vi{i}"] = DeviceVar(in_fmts[i])
     for j, ln in enumerate(outs):
         ns[f"o{j}"] = TerminalVar()
         ns[f"vo{j}"] = DeviceVar("I" if isinstance(ln["size"], int) else ln["size"], write=True)
@@ -49,7 +55,10 @@ def make_fast_device(ins, outs):
         for i in range(len(ins)):
             setattr(self, f"vi{i}", getattr(self, f"i{i}"))
         for j in range(len(outs)):
-            setattr(self, f"o{j}", getattr(self, f"vo{j}"))
+            if consts[j] is None:
+                setattr(self, f"o{j}", getattr(self, f"vo{j}"))
+            else:
+                setattr(self, f"o{j}", consts[j])
 
     def update(self):      # same thing on the Python path (slow groups)
         program(self)
@@ -59,9 +68,10 @@ def make_fast_device(ins, outs):
     return type("GenDev", (Device,), ns)
 
 
-def build_devices(tape, terms, links, label):
+def build_devices(tape, terms, links, label, variants=False):
     from ebpfcat.ebpfcat import PacketVar
     from ebpfcat.ethercat import SyncManager
+    from . import wl_groups as wl
     ndev = 1 + tape.draw(f"{label}/ndev", 3)
     per = [[] for _ in range(ndev)]
     for ln in links:
@@ -72,8 +82,19 @@ def build_devices(tape, terms, links, label):
             continue
         ins = [ln for ln in dl if ln["sm"] == "in"]
         outs = [ln for ln in dl if ln["sm"] == "out"]
-        dev = make_fast_device(ins, outs)()
-        dev.ins, dev.outs = ins, outs
+        in_fmts = consts = None
+        if variants:
+            in_fmts = []
+            for ln in ins:
+                if isinstance(ln["size"], int):
+                    in_fmts.append("I")
+                else:
+                    w = WIDER[ln["size"]]
+                    in_fmts.append(w[tape.draw(f"{label}/widen", len(w))])
+            consts = [wl.draw_value(tape, ln, label) if tape.chance(f"{label}/const", 30)
+                      else None for ln in outs]
+        dev = make_fast_device(ins, outs, in_fmts, consts)()
+        dev.ins, dev.outs, dev.consts = ins, outs, consts or [None] * len(outs)
         for i, ln in enumerate(ins):
             setattr(dev, f"i{i}", PacketVar(terms[ln["term"]], SyncManager.IN, ln["pos"], ln["size"]))
         for j, ln in enumerate(outs):
